@@ -7,8 +7,8 @@ REAL `array!` / `array_flat!` / `array_single!` / constructor macros, one functi
 each literal with the nested structure it was generated from (shape, leaf texts, expected elements).
 
 The set is fixed (no seed): every shape of rank 1..4 with axis lengths 1..3 once, dealt over the element types i32,
-f64, bool, char, String, Tuple2, Tuple3, List; for each of these types additionally every shape of rank 1..3 with
-lengths 1..2 (plus some with 3 and 4); the multi-argument and flat forms; element texts with separators/brackets/escapes, and the flat/single/constructor macros next to the functions
+f64, bool, char, String, Tuple2, Tuple3, List; for each of these types additionally ten fixed shapes (unit axes in
+every position, lengths up to 4); the multi-argument and flat forms; element texts with separators/brackets/escapes, and the flat/single/constructor macros next to the functions
 they stand for.  Regenerate with `python3 harness/gen_c18_literals.py` (output is committed; `./check` only compiles it).
 
 Layout (measured, DESIGN Appendix A): one function per literal, spread over many modules; never many literals in one
@@ -228,10 +228,8 @@ def build():
     deal = ["i32", "f64", "char", "i32", "String", "bool", "T2", "i32", "T3", "List", "f64", "bool"]
     for idx, s in enumerate(shapes(4, 3)): once(deal[idx % len(deal)], s)
     # every element type: the whole box rank<=3, len<=2 (unit axes in every position), plus some 3s and 4s
-    extra = ([3], [4], [2, 3], [3, 1, 2], [1, 2, 1, 3])
     for ty in ("i32", "f64", "bool", "char", "String", "T2", "T3", "List"):
-        for s in shapes(3, 2): once(ty, s)
-        for s in extra: once(ty, s)
+        for s in ([1], [2], [4], [1, 2], [2, 1], [2, 2], [2, 3], [2, 1, 2], [1, 2, 1], [1, 2, 1, 3]): once(ty, s)
     for s in ([4, 4], [1, 4], [4, 1], [2, 4, 1], [1, 4, 2, 3], [2, 1, 1, 4], [2, 2, 2, 2], [1, 1, 1, 1]): once("i32", s)
     for s in ([2], [2, 2], [1, 2, 2]): add_nested("f64i", s)
     for ty in ("T2s", "T3s", "ListS", "ListF"):
@@ -250,7 +248,9 @@ def build():
     add_nested("char", [2], [ch(c) for c in "a'"], scope="out", note="a quote character: Debug escapes it")
     add_nested("char", [2], [ch(c) for c in "\\n"], scope="out", note="a backslash: Debug escapes it")
     add_nested("String", [2], [st("a,b"), st("c")], note="comma inside a string")
-    add_nested("String", [2, 2], [st("a, b"), st("c]"), st("[d"), st("], [")], note="separators inside strings")
+    add_nested("String", [2, 2], [st("a, b"), st("c]"), st("[d"), st("],[")], note="separators inside strings")
+    add_nested("String", [2], [st("x], [y"), st("z")], scope="out", note="the four characters `], [` inside a string: array_parse_input! rewrites them before the strings are cut out")
+    add_nested("String", [2], [st("\u00e9,\u00fc"), st("\u00df]")], note="non-ASCII text with separators")
     add_nested("String", [1, 3], [st(""), st(" "), st("_")], note="empty / blank / placeholder strings")
     add_nested("String", [3, 1], [st("#"), st("(x)"), st("]#[")], note="hash separator inside strings")
     add_nested("String", [2], [st("a\nb"), st("t\tu")], note="Debug escapes \\n \\t")
